@@ -150,40 +150,10 @@ def strategy():
 
 
 def atheris_block_factory(runs):
-    def block(shard, nshards):
-        target = os.path.join(VERIF_DIR, "fuzz", "c14_atheris.py")
-        deps = os.path.join(VERIF_DIR, ".deps")
-        env = dict(os.environ)
-        env["PYTHONPATH"] = os.pathsep.join([os.path.join(env.get("VERIF_REPO", "/repo"), "src"), VERIF_DIR, deps])
-        probe = subprocess.run([sys.executable, "-c", "import atheris"], env=env, capture_output=True)
-        if probe.returncode != 0:
-            return {"evals": 0, "nt": 0, "violations": [], "notes": ["atheris not importable: stage skipped"], "classes": {"atheris-skipped": 1}}
-        import tempfile, shutil, json
+    from vlib.fuzzstage import atheris_block_factory as f
 
-        work = tempfile.mkdtemp(prefix=f"c14fuzz{shard}_")
-        try:
-            corpus = os.path.join(work, "corpus")
-            os.makedirs(corpus)
-            if shard % 2 == 1:  # odd shards start from literals of the repository's parser tests, even ones from nothing
-                for i, lit in enumerate(["#ff0000", "rgb(255, 0, 0)", "rgba(255,0,0,0.5)", "hsl(0, 100%, 50%)", "hsla(120, 100%, 50%, 0.8)", "red", "255, 0, 0", "(1,2,3)", "rgb(100%, 0%, 0%)", "f00"]):
-                    open(os.path.join(corpus, f"s{i}"), "w").write(lit)
-            seed = int(os.environ.get("VERIF_SEED", "1") or 1) * 1000 + shard
-            out = os.path.join(work, "result.json")
-            cmd = [sys.executable, target, corpus, f"-runs={runs}", f"-seed={seed}", "-max_len=64", f"-dict={os.path.join(VERIF_DIR, 'fuzz', 'c14.dict')}",
-                   f"-artifact_prefix={work}/", "-print_final_stats=0", "-verbosity=0"]
-            env["C14_RESULT"] = out
-            p = subprocess.run(cmd, env=env, capture_output=True, text=True, timeout=3600)
-            res = {"evals": 0, "nt": 0, "violations": []}
-            if os.path.exists(out):
-                res = json.load(open(out))
-            elif p.returncode != 0:
-                res["notes"] = [f"atheris exited {p.returncode}: {p.stderr[-300:]}"]
-            res.setdefault("classes", {})["atheris-exec"] = res.get("evals", 0)
-            return res
-        finally:
-            shutil.rmtree(work, ignore_errors=True)
-
-    return block
+    return f("c14_atheris.py", "C14_RESULT", runs, dictionary="c14.dict", max_len=64,
+             seed_literals=["#ff0000", "rgb(255, 0, 0)", "rgba(255,0,0,0.5)", "hsl(0, 100%, 50%)", "hsla(120, 100%, 50%, 0.8)", "red", "255, 0, 0", "(1,2,3)", "rgb(100%, 0%, 0%)", "f00"])
 
 
 def atheris_judge(case):
